@@ -5,3 +5,5 @@ mod machine;
 mod ctl_io;
 mod input;
 mod sna;
+mod memory;
+mod audio;
